@@ -129,7 +129,12 @@ def make(rng, i, force_trait=None):
         if shape == "named":
             return ", ".join("%s f%d: %s" % (a, j, t) for j, (a, t) in enumerate(zip(fattrs, fields)))
         return ", ".join("%s %s" % (a, t) for a, t in zip(fattrs, fields))
-    w = (" where %s" % ", ".join(where)) if where else ""
+    # the where-clause as written: plain, with a trailing comma (what rustfmt writes for a multi-line clause), or - now
+    # and then - a bare `where` without any predicate (legal)
+    if where:
+        w = " where %s%s" % (", ".join(where), rng.choice(["", "", ","]))
+    else:
+        w = " where" if rng.random() < 0.08 else ""
     body = ("{ %s }" % fs(True)) if shape == "named" else "(%s)" % fs(False)
     attrs = "#[educe(%s)]" % ", ".join(metas) if rng.random() < 0.5 else "\n".join("#[educe(%s)]" % m for m in metas)
     if kind == "union":
